@@ -6,8 +6,10 @@ R3 right window   : the slice bound is cutoff+1 (default cutoff from the model w
                     suppression removes exactly element 0 of the fresh list."""
 import ast
 
+from ..inline import flatten
+
 from .. import cfg as cfgmod
-from ..dataflow import (AliasAnalysis, ALIAS, mutations_in, own_exprs, linform, lin_eq, lin_str,
+from ..dataflow import (resolve_expr, AliasAnalysis, ALIAS, mutations_in, own_exprs, linform, lin_eq, lin_str,
                         single_assign_subst)
 from ..loader import AnalysisError, unparse, call_name
 
@@ -29,9 +31,13 @@ def _has_return_value(f):
 def discover_accessors(prog):
     """role-based discovery; returns {role: [FuncInfo]}"""
     series, renderers, wrappers, helpers = [], [], [], []
-    for f in prog.all_functions():
-        if not _has_return_value(f):
+    for f_raw in prog.all_functions():
+        if not _has_return_value(f_raw):
             continue
+        # public entry points are judged with their private helpers inlined; a private helper is part of its callers
+        if f_raw.name.startswith('_') and not f_raw.name.startswith('__') and f_raw.cls is not None and f_raw.cls.name == 'Model':
+            continue
+        f = flatten(prog, f_raw)
         body = f.node
         reads_ts = any(isinstance(n, ast.Attribute) and n.attr == 'TimeSeries' and isinstance(n.ctx, ast.Load)
                        for n in ast.walk(body))
@@ -155,8 +161,10 @@ def check_window(prog, check, f):
         raise AnalysisError('C16.R3: cannot identify the cutoff parameter of ' + f.qualname)
     # slices of the stored series
     nslices = 0
+    nocut = {k: v for k, v in subst.items() if k != cutoff}
     for n in ast.walk(fn):
-        if isinstance(n, ast.Subscript) and isinstance(n.slice, ast.Slice) and cutoff in {x.id for x in ast.walk(n.slice) if isinstance(x, ast.Name)}:
+        if isinstance(n, ast.Subscript) and isinstance(n.slice, ast.Slice) and cutoff in {
+                x.id for x in ast.walk(resolve_expr(n.slice, nocut)) if isinstance(x, ast.Name)}:
             nslices += 1
             sl = n.slice
             lo_ok = sl.lower is None or lin_eq(linform(sl.lower, subst), {'': 0})
